@@ -17,3 +17,4 @@ pub mod cff;
 pub mod container;
 pub mod cffgen;
 pub mod otl;
+pub mod varext;
